@@ -9,6 +9,8 @@ pub mod hostile;
 #[cfg(feature = "hooks")]
 pub mod matcher;
 #[cfg(feature = "hooks")]
+pub mod replay;
+#[cfg(feature = "hooks")]
 pub mod reuse;
 #[cfg(feature = "hooks")]
 pub mod spec;
@@ -23,6 +25,8 @@ pub fn dispatch(engine: &str, opts: &Opts) -> Option<Run> {
         "spec" => Some(spec::run(opts)),
         #[cfg(feature = "hooks")]
         "dec" => Some(dec::run(opts)),
+        #[cfg(feature = "hooks")]
+        "replay" => Some(replay::run(opts)),
         #[cfg(feature = "hooks")]
         "dict" => Some(dict::run(opts)),
         #[cfg(feature = "hooks")]
